@@ -509,6 +509,18 @@ def _py_filter(rows: List[Dict[str, Any]], col: str, op: str, lit: Any) -> List[
     return out
 
 
+def _rows_match(stored: List[Dict[str, Any]], expected: List[Dict[str, Any]], supplied: List[Dict[str, Any]], cols: List[str]) -> bool:
+    """Stored rows = supplied rows, each value either in the declared type's representation or exactly as
+    supplied (a library that keeps MORE than the declared type promises is not wrong).  Positional first
+    (parquet keeps row order), multiset as a fallback."""
+    if len(stored) != len(expected):
+        return False
+    if all(sorted(srow) == cols and all(same(srow[c], erow[c]) or same(srow[c], prow.get(c)) for c in cols)
+           for srow, erow, prow in zip(stored, expected, supplied)):
+        return True
+    return _bag(stored) == _bag(expected)
+
+
 def _diff_kind(physes: List[List[Tuple[str, str, bool]]]) -> str:
     first = physes[0]
     kinds = set()
@@ -542,7 +554,8 @@ class Result:
 
 
 def replay_history(header: Dict[str, Any], hist: Dict[str, Any], t1: str, t2: str, salt: Any, seed: int,
-                   specials: Optional[Dict[int, Tuple[str, Any]]] = None, filters: bool = True) -> Result:
+                   specials: Optional[Dict[int, Tuple[str, Any]]] = None, filters: bool = True,
+                   bulk: Optional[Dict[int, int]] = None) -> Result:
     """Execute one exported history against a real table and judge every step by the property's oracle."""
     from datashard import create_table, load_table
 
@@ -551,7 +564,7 @@ def replay_history(header: Dict[str, Any], hist: Dict[str, Any], t1: str, t2: st
     r = rng(seed, "c11", salt, t1, t2)
     d = scratch_dir("c11")
     path = os.path.join(d, "t")
-    payload_base = {"history": hist, "t1": t1, "t2": t2, "salt": salt, "seed": seed,
+    payload_base = {"history": hist, "t1": t1, "t2": t2, "salt": salt, "seed": seed, "bulk": bulk,
                     "specials": {str(k): [v[0], repr(v[1])] for k, v in (specials or {}).items()}}
 
     def violate(sig: str, what: str, extra: Dict[str, Any]) -> None:
@@ -589,6 +602,10 @@ def replay_history(header: Dict[str, Any], hist: Dict[str, Any], t1: str, t2: st
                 elif specials and k in specials:
                     special = specials[k]
                 supplied_rows = conc.batch(vclass, k, special, r.randrange(2))
+                if bulk and k in bulk and supplied_rows:
+                    # a large batch (crosses the writer's internal batch size): more plain rows, tagged by position
+                    for n in range(bulk[k] - len(supplied_rows)):
+                        supplied_rows.append({c: _ok_value(conc.coltype[c], c, k + n // 7, n % 5) for c in ("a", "b", "c")})
                 schema = conc.supplied(variant)
                 call = lambda: tbl.append_records([dict(x) for x in supplied_rows], schema=schema)  # noqa: E731
             else:
@@ -611,6 +628,15 @@ def replay_history(header: Dict[str, Any], hist: Dict[str, Any], t1: str, t2: st
                 res.drift.append({"step": step, "model": out["stage"], "code": "accepted" if ok else f"{type(raised).__name__}: {str(raised)[:120]}",
                                   "types": [t1, t2], "special": repr(special)})
             res.keys.append((kind, variant, vclass, "accepted" if ok else "rejected"))
+            # conformance of the model's STATE (not a verdict): number of referenced files and each file's
+            # physical column order / nullability as the specification predicts them
+            try:
+                obs_phys = [",".join(f"{n}{'?' if nul else '!'}" for n, _t, nul in _file_phys(path, f)) for f in after["cur_files"]]
+            except Exception:  # noqa: BLE001
+                obs_phys = ["<unreadable>"]
+            mod_phys = [",".join(c.split(":")[0] + c[-1] for c in tag.split(",")) for tag in out["phys"]]
+            if ok == out["ok"] and obs_phys != mod_phys:
+                res.drift.append({"step": step, "model_files": mod_phys, "code_files": obs_phys, "types": [t1, t2]})
             if not ok:
                 # ---------------- RejectedUnchanged ----------------
                 res.rejected += 1
@@ -689,7 +715,7 @@ def replay_history(header: Dict[str, Any], hist: Dict[str, Any], t1: str, t2: st
                 violate(f"altered:{_alter_kind(conc.coltype.get(c, 'unknown-column'), v)}",
                         f"{desc}: value {v!r} for column {c} ({conc.coltype.get(c, 'not in schema')}) cannot be represented by the declared type, "
                         f"yet the append was accepted and the table now returns {got!r}", {"step": k, "column": c, "value": repr(v), "stored": repr(got)})
-            elif _bag(stored) != _bag(expected_rows):
+            elif not _rows_match(stored, expected_rows, supplied_rows, cols):
                 violate(f"content-mismatch:{kind}:{variant}:{vclass}",
                         f"{desc}: accepted rows are stored as {stored!r}, supplied (in the declared representation) {expected_rows!r}",
                         {"step": k, "stored": repr(stored), "expected": repr(expected_rows)})
@@ -721,6 +747,15 @@ def replay_history(header: Dict[str, Any], hist: Dict[str, Any], t1: str, t2: st
                             f"{desc}: full scan returns {len(post_scan[1])} rows that differ from the stored content ({len(content)} rows)",
                             {"step": k, "scan": post_scan[1][:6], "content": _bag(content)[:6]})
                 scan_was_ok = True
+                # the streaming read API must return the same content
+                try:
+                    it = _bag(list(load_table(path).iter_records()))
+                    if it != post_scan[1]:
+                        violate(f"iter-records-content:{kind}:{variant}:{vclass}",
+                                f"{desc}: iter_records() returns {len(it)} rows that differ from scan()'s {len(post_scan[1])}", {"step": k})
+                except Exception as e:  # noqa: BLE001
+                    violate(f"iter-records-fails:{type(e).__name__}:{kind}:{variant}",
+                            f"{desc} was accepted, scan() works but iter_records() raises {e!r}", {"step": k})
             # ---- BoundsMeanTheirColumn, observed: filtered scans on every column
             if filters and scan_was_ok and content:
                 for c in cols:
@@ -755,6 +790,8 @@ def replay_history(header: Dict[str, Any], hist: Dict[str, Any], t1: str, t2: st
                             violate(sig, f"{desc}: scan(filter={{{c!r}: ({op!r}, {lit!r})}}) returns {len(got[1])} rows, the content has {len(want)} matching "
                                          f"(missing {missing[:3]}, unexpected {extra[:3]})",
                                     {"step": k, "column": c, "op": op, "literal": repr(lit), "missing": missing, "extra": extra})
+            if out["scanOk"] != scan_was_ok and ok == out["ok"]:
+                res.drift.append({"step": step, "model_scanOk": out["scanOk"], "code_scan_ok": scan_was_ok, "types": [t1, t2]})
             obs = after
     finally:
         shutil.rmtree(d, ignore_errors=True)
@@ -807,9 +844,10 @@ def _merge(ctx: Ctx, res: Result, agg: Dict[str, Any]) -> None:
             agg["drift_samples"].append(dnote)
 
 
-def _work(args: Tuple[Dict[str, Any], Dict[str, Any], str, str, Any, int, Optional[Dict[int, Tuple[str, Any]]]]) -> Result:
-    header, hist, t1, t2, salt, seed, specials = args
-    return replay_history(header, hist, t1, t2, salt, seed, specials)
+def _work(args: Tuple[Any, ...]) -> Result:
+    header, hist, t1, t2, salt, seed, specials = args[:7]
+    bulk = args[7] if len(args) > 7 else None
+    return replay_history(header, hist, t1, t2, salt, seed, specials, bulk=bulk)
 
 
 def _combo_for(hist: Dict[str, Any], idx: int) -> Tuple[str, str]:
@@ -864,6 +902,9 @@ def run(ctx: Ctx) -> None:
                     placements.append(("a", t, other))
                 for col, t1, t2 in placements:
                     sweep_jobs.append((header, hist, t1, t2, ("sweep", vclass, t, vi, col), ctx.seed, {2: (col, v)}))
+    # large batches (2001 and 3000 rows: across and exactly on the writer's 1000-row batch boundary)
+    for bi, (t1, t2, nrows) in enumerate([("long", "string", 2001), ("double", "date", 3000), ("string", "timestamp", 1000)][: 2 if quick else 3]):
+        sweep_jobs.append((header, find("omitted", "ok", "omitted", "ok"), t1, t2, ("sweep", "ok-bulk", t1, bi, str(nrows)), ctx.seed, None, {2: nrows}))
     # ---- B. histories covering every abstract transition of the model (greedy cover), then seeded extras
     order = list(range(len(cases)))
     rng(ctx.seed, "c11-order").shuffle(order)
@@ -990,7 +1031,8 @@ def replay(ctx: Ctx, path: str) -> None:
                         if repr(v) == rep:
                             specials[int(k)] = (col, v)
     salt = tuple(p["salt"]) if isinstance(p["salt"], list) else p["salt"]
-    out = replay_history(header, p["history"], p["t1"], p["t2"], salt, p["seed"], specials)
+    bulk = {int(k): v for k, v in p["bulk"].items()} if p.get("bulk") else None
+    out = replay_history(header, p["history"], p["t1"], p["t2"], salt, p["seed"], specials, bulk=bulk)
     for sig, what, payload in out.violations:
         ctx.violation(sig, what, payload)
     ctx.count_traces(out.steps)
